@@ -183,6 +183,16 @@ int64_t evaluate_incdec(
                       node->left->name.c_str());
             throw std::runtime_error("Undefined variable");
         }
+        // ++/-- through a reference (T& q = x; q++) works on the referenced
+        // variable, like a read of q and q = e do - not on the address the
+        // reference variable holds
+        if (var->is_reference) {
+            var = reinterpret_cast<Variable *>(var->value);
+            if (!var) {
+                throw std::runtime_error("Invalid reference variable: " +
+                                         node->left->name);
+            }
+        }
         // ++/-- is an assignment: same guard as for = and op=
         if (var->is_const && var->is_assigned) {
             throw std::runtime_error("Cannot modify const variable: " +
